@@ -714,7 +714,8 @@ func addTimeSubs(cfg *ResponseConfig, a *asset, period *m.Period, languages []st
 		st.SetTimescale(SUBS_TIME_TIMESCALE)
 
 		if vST.Duration != nil {
-			st.Duration = Ptr(*vST.Duration * 1000 / vST.GetTimescale())
+			// 64-bit arithmetic: duration x 1000 does not fit 32 bits for e.g. 2 s at a 10 MHz timescale
+			st.Duration = Ptr(uint32(uint64(*vST.Duration) * 1000 / uint64(vST.GetTimescale())))
 		}
 		if vST.StartNumber != nil {
 			st.StartNumber = vST.StartNumber
